@@ -57,6 +57,11 @@ func buildConf(c Conf) []byte {
 	if err := json.Unmarshal([]byte(baseConf), &m); err != nil {
 		panic(err)
 	}
+	// VERIF_LAL_LOG=trace: the log level is a configuration option like any other, and lal has code that
+	// runs only at trace level (dumps of received chunks and packets); lines are formatted and dropped.
+	if os.Getenv("VERIF_LAL_LOG") == "trace" {
+		m["log"].(map[string]interface{})["level"] = 0
+	}
 	for k, v := range c {
 		parts := strings.SplitN(k, ".", 2)
 		sec, ok := m[parts[0]].(map[string]interface{})
